@@ -519,16 +519,16 @@ pub fn run(run: &Run) {
 			tiling_case(&toks.join(" "))
 		});
 	}
-	let n = run.tier.pick(60_000, 1_500_000);
+	let n = run.tier.pick(400_000, 4_000_000);
 	run.explore("tiling-unicode", n, 4..=80, |src| tiling_case(&crate::props::fmt::unicode_text(src)));
-	let n = run.tier.pick(10_000, 300_000);
+	let n = run.tier.pick(100_000, 1_000_000);
 	run.explore("spans", n, 10..=200, span_case);
-	let n = run.tier.pick(8_000, 200_000);
+	let n = run.tier.pick(80_000, 800_000);
 	run.explore("planted-positions", n, 8..=40, planted_case);
 	// through the executable
 	let dir = std::path::PathBuf::from(format!("/verif/target/tmp/c17-{}", std::process::id()));
 	let _ = std::fs::create_dir_all(&dir);
-	let n = run.tier.pick(200, 4_000);
+	let n = run.tier.pick(600, 6_000);
 	let counter = std::sync::atomic::AtomicU64::new(0);
 	run.explore("planted-positions-cli", n, 8..=40, |src| {
 		let i = counter.fetch_add(1, std::sync::atomic::Ordering::SeqCst);
